@@ -20,6 +20,7 @@ def plan_items(tier, seed, d3_mod_quick=64, groups_thorough=True):
     items += [("d2", i) for i in range(A.N)]
     items += [("wrap1", w) for w in A.WRAPPERS]
     items += [("objcore", t, r) for t in (0, 1) for r in range(5)]
+    items += [("wrapobj", w) for w in A.WRAPPERS]
     items += [("core", "numeric", k, 8) for k in range(8)] + [("core", "string", k, 4) for k in range(4)]
     if tier != "quick":
         items += [("core", "array", k, 64) for k in range(64)] + [("core", "composition", k, 64) for k in range(64)]
@@ -86,6 +87,16 @@ def expand(item):
                     if len(st) <= 3 and not typed:
                         pass  # also covered by d2/d3 slices; harmless duplicate
                     yield ("s",) + st, A.schema_of(st), VAL.V, len(st)
+    elif kind == "wrapobj":
+        # equally titled object classes with DIFFERENT contents under one wrapper, one after the other in one process
+        # (anything keyed on a class name / repr instead of the class itself shows up here)
+        w = item[1]
+        vals = VAL.lift(A.lift_position(w))
+        tobj = [a["i"] for a in A.ATOMS if a["frag"] == A.OBJ][0]
+        for a in A.ATOMS:
+            if a["kw"] in ("properties", "required", "additionalProperties", "patternProperties", "minProperties", "dependencies"):
+                st = (tobj, a["i"])
+                yield ("w", w) + st, A.wrap(w, A.schema_of(st)), vals, 2
     elif kind == "core":
         # full product of one keyword family (every keyword absent or one of its atoms), typed and untyped:
         # the k-way interactions inside a family that a depth-3 bound cannot reach
